@@ -117,16 +117,16 @@ theorem good_hSetPixelFormat (cfg : Cfg) (c : Conn) (inp : List UInt8) :
 
 /-! ### SetEncodings: the encodings are read one by one; no allocation depends on the count -/
 
-theorem encLoop_rest (cfg : Cfg) (n : Nat) (inp : List UInt8) (c : Conn) (w : Bool) (k : Nat)
-    {rest : List UInt8} {c' : Conn} {w' : Bool} {k' : Nat}
-    (h : encLoop cfg n inp c w k = (some rest, c', w', k')) : rest.length + 4 * n = inp.length := by
-  induction n generalizing inp c w k with
+theorem encLoop_rest (cfg : Cfg) (n : Nat) (inp : List UInt8) (c : Conn) (w : Bool) (k kl : Nat)
+    {rest : List UInt8} {c' : Conn} {w' : Bool} {k' kl' : Nat}
+    (h : encLoop cfg n inp c w k kl = (some rest, c', w', k', kl')) : rest.length + 4 * n = inp.length := by
+  induction n generalizing inp c w k kl with
   | zero => simp only [encLoop, Prod.mk.injEq, Option.some.injEq] at h; simp [h.1]
   | succ m ih =>
     match inp with
     | a :: b :: cc :: d :: tl =>
       simp only [encLoop] at h
-      have := ih _ _ _ _ h
+      have := ih _ _ _ _ _ h
       simp only [List.length_cons]; omega
     | [] => simp [encLoop] at h
     | [_] => simp [encLoop] at h
@@ -139,7 +139,7 @@ theorem good_hSetEncodings (cfg : Cfg) (c : Conn) (inp : List UInt8) :
   split
   · split
     · rename_i h
-      have := encLoop_rest _ _ _ _ _ _ h
+      have := encLoop_rest _ _ _ _ _ _ _ h
       simp [Good, mkCont]; omega
     · simp [Good, mkStarved]
   · simp [Good, mkStarved]
@@ -370,12 +370,10 @@ theorem good_tLengthError (c : Conn) (size : Nat) (rest : List UInt8) (hs : size
     Good tightMax rest.length (tLengthError c size rest) := by
   unfold tLengthError
   split
-  · simp [Good, mkCont]
-  · split
-    · rename_i h
-      have := readN_le h
-      simp [Good, mkCont, tightMax]; omega
-    · simp [Good, mkStarved, tightMax]; omega
+  · rename_i h
+    have := readN_le h
+    simp [Good, mkCont, tightMax]; omega
+  · simp [Good, mkStarved, tightMax]; omega
 
 theorem good_hTight (cfg : Cfg) (c : Conn) (t : Nat) (inp : List UInt8) :
     Good tightMax inp.length (hTight cfg c t inp) := by
@@ -643,7 +641,10 @@ theorem run_waits (cfg : Cfg) (m : Mode) (fuel : Nat) (c : Conn) (inp : List UIn
       · split
         · simp
         · split
-          · refine ⟨?_, ?_, ?_, ?_⟩ <;> simp [writeBlocked, Status.isClosed] <;> omega
+          · unfold writeFail
+            split
+            · refine ⟨?_, ?_, ?_, ?_⟩ <;> simp [Status.isClosed] <;> omega
+            · refine ⟨?_, ?_, ?_, ?_⟩ <;> simp [writeBlocked, Status.isClosed] <;> omega
           · split
             · have := ih (handle cfg c (b :: tl)).conn (handle cfg c (b :: tl)).rest
                 { t with n := t.n + 1, amax := max t.amax (handle cfg c (b :: tl)).alloc,
@@ -678,7 +679,8 @@ theorem run_alloc (cfg : Cfg) (m : Mode) (B : Nat) (hB : ∀ c inp, (handle cfg 
       · split
         · simp only []; omega
         · split
-          · simp only [writeBlocked]; omega
+          · unfold writeFail
+            split <;> (simp only [writeBlocked]; omega)
           · split
             · have := ih (handle cfg c (b :: tl)).conn (handle cfg c (b :: tl)).rest
                 { t with n := t.n + 1, amax := max t.amax (handle cfg c (b :: tl)).alloc,
@@ -740,7 +742,8 @@ theorem run_rounds (cfg : Cfg) (m : Mode) (fuel : Nat) (c : Conn) (inp : List UI
       · split
         · simp only [List.length_cons]; omega
         · split
-          · simp only [writeBlocked, List.length_cons]; omega
+          · unfold writeFail
+            split <;> (simp only [writeBlocked, List.length_cons]; omega)
           · split
             · rename_i hc
               have hlt := hr hc
@@ -758,6 +761,31 @@ theorem run_rounds (cfg : Cfg) (m : Mode) (fuel : Nat) (c : Conn) (inp : List UI
               · simp only [readBlocked, List.length_cons]; omega
             · simp only [List.length_cons]; omega
 
+
+/-- when `select` fails instead of waiting (or the peer is gone) no read wait is spent at all -/
+theorem run_no_wait (cfg : Cfg) (m : Mode) (hm : (m.eof || m.selErr) = true) (fuel : Nat) (c : Conn)
+    (inp : List UInt8) (t : Tot) : (run cfg m fuel c inp t).2.rw = t.rw := by
+  induction fuel generalizing c inp t with
+  | zero => simp [run]
+  | succ k ih =>
+    match inp with
+    | [] =>
+      simp only [run]
+      split <;> rfl
+    | b :: tl =>
+      simp only [run]
+      split
+      · rfl
+      · split
+        · rfl
+        · split
+          · unfold writeFail
+            split <;> simp [writeBlocked]
+          · split
+            · rw [ih]
+            · rfl
+            · simp [hm]
+            · rfl
 
 /-! ### several connections -/
 
